@@ -231,6 +231,22 @@ def build_tree(mod_texts):
     return root
 
 
+def generate_spec_only(outpath, contracts_dir=None):
+    """prelude + adapters + the format-specification library, without any extracted code: what is verified here
+    does not depend on /repo at all."""
+    contracts_dir = contracts_dir or os.path.join(VERIF, 'contracts')
+    prelude = open(os.path.join(contracts_dir, 'prelude.rs')).read()
+    spec_files = sorted(f for f in os.listdir(os.path.join(contracts_dir, 'spec')) if f.endswith('.rs'))
+    spec_text = ''.join(open(os.path.join(contracts_dir, 'spec', f)).read() for f in spec_files)
+    txt = ('// GENERATED by /verif/tools/gen.py (specification library only) -- do not edit.\n'
+           '#![feature(allocator_api)]\n#![allow(unused_imports, dead_code, unused_variables, unused_mut, unused_assignments, non_snake_case, unused_parens, unused_braces)]\n'
+           'use vstd::prelude::*;\nverus! {\n' + prelude + open(os.path.join(contracts_dir, 'adapters.rs')).read()
+           + '\npub mod vspec {\n#[allow(unused_imports)] use vstd::prelude::*;\n#[allow(unused_imports)] use crate::{ReadSpec, WriteSpec, BufReadSpec};\n'
+           + spec_text + '\n} // mod vspec\n} // verus!\nfn main() {}\n')
+    open(outpath, 'w').write(txt)
+    return outpath
+
+
 def generate(outpath, repo_src=None, contracts_dir=None, demote=()):
     repo_src = repo_src or REPO_SRC
     contracts_dir = contracts_dir or os.path.join(VERIF, 'contracts')
